@@ -526,3 +526,31 @@ func TestD25_ClearValuesWithOwnExistenceBitmap(t *testing.T) {
 		t.Fatalf("after clearing all values, Increment of column 7 gives %d,%v; want 1,true (stale plane bits survived)", v, ok)
 	}
 }
+
+// Known finding (not repaired), C06: a conformant stream with a run cut in three is adopted verbatim.
+// Expected to FAIL on the current tree.
+func TestK26_SplitRunsAdoptedVerbatim(t *testing.T) {
+	// cookie 12347 | 1 chunk, run flag set | key 0, card-1 = 14 | 3 runs: (0,4) (5,4) (10,4) = {0..14}
+	stream := []byte{0x3b, 0x30, 0x00, 0x00, 0x01, 0x00, 0x00, 0x0e, 0x00, 0x03, 0x00,
+		0x00, 0x00, 0x04, 0x00, 0x05, 0x00, 0x04, 0x00, 0x0a, 0x00, 0x04, 0x00}
+	got := roaring.New()
+	if _, err := got.ReadFrom(bytes.NewReader(stream)); err != nil {
+		t.Fatal(err)
+	}
+	want := rangeBM(0, 15)
+	want.RunOptimize()
+	if got.GetCardinality() != 15 {
+		t.Fatalf("cardinality %d", got.GetCardinality())
+	}
+	if !got.Equals(want) {
+		t.Errorf("the decoded {0..14} is not Equals to {0..14} built with AddRange")
+	}
+	func() {
+		defer func() {
+			if r := recover(); r != nil {
+				t.Errorf("Flip(20,22) on the decoded bitmap panics: %v", r)
+			}
+		}()
+		got.Flip(20, 22)
+	}()
+}
